@@ -90,6 +90,23 @@ func attachFrames() map[string][]byte {
 	}
 }
 
+// refFor is the reference predicate (written on the byte layout, see c12.go) of the named filter: what the socket must
+// let through, independently of whatever program object the repository handed out.
+func refFor(name string) func(f []byte) bool {
+	switch name {
+	case "none":
+		return func([]byte) bool { return true }
+	case "icmp":
+		return func(f []byte) bool { return refICMP(f, false) }
+	case "udp":
+		return func(f []byte) bool { return refICMP(f, true) }
+	case "synack":
+		return refSynAck
+	}
+	spec, _ := attachSpec(name)
+	return func(f []byte) bool { return refTuple(f, spec.FilterConfig.Src, spec.FilterConfig.Dst) }
+}
+
 func vmFor(raw []bpf.RawInstruction) *bpf.VM {
 	ins := make([]bpf.Instruction, len(raw))
 	for i, r := range raw {
@@ -169,14 +186,12 @@ func runAttach(sc *AScn, prefix []int, sig []uint32) (*vsched.Exec, string, stri
 	for _, side := range []struct {
 		name string
 		pair sockPair
-		prog []bpf.RawInstruction
-	}{{"A=" + sc.A, pa, progA}, {"B=" + sc.B, pb, progB}} {
-		vm := vmFor(side.prog)
+		ref  func([]byte) bool
+	}{{"A=" + sc.A, pa, refFor(sc.A)}, {"B=" + sc.B, pb, refFor(sc.B)}} {
 		got := side.pair.passes(frames, names)
 		for _, n := range names {
-			k, _ := vm.Run(frames[n])
-			if want := k > 0; want != got[n] {
-				return x, "socket-carries-another-program", fmt.Sprintf("socket %s: frame %q passes=%v, its own program says %v", side.name, n, got[n], want)
+			if want := side.ref(frames[n]); want != got[n] {
+				return x, "socket-carries-another-program", fmt.Sprintf("socket %s: frame %q passes=%v, the filter it asked for says %v", side.name, n, got[n], want)
 			}
 		}
 	}
@@ -334,7 +349,7 @@ func runSwap(sc *SScn) (string, string) {
 		}
 		return "set-filter-failed", err.Error()
 	}
-	okB := acceptsFn(sc.B)
+	okB := refFor(sc.B)
 	// frames sent after the swap carry a marker in the IP identification field
 	for _, n := range names {
 		f := append([]byte{}, frames[n]...)
